@@ -30,6 +30,7 @@ var featNames = []string{
 	"profile", "issued", "request-only", "alias+directories", "version-0", "manipulated-signature+key-algorithm",
 	"imported-key", "serial+unique-ids", "absolute-validity-2049/2050", "relative-validity", "extension-list",
 	"foreign-issuer", "signature-algorithm", "non-ascii-subject", "brainpool-key", "admission",
+	"manipulated-inner-signature-oid", "manipulated-outer-signature-oid", "manipulated-key-bits",
 }
 
 func featHas(set []int, name string) bool {
@@ -141,6 +142,15 @@ func featWorld(set []int) (d *Dir, ent *refcfg.CertCfg, pre map[string][]byte, w
 	if h("manipulated-signature+key-algorithm") {
 		m.SigValue = refcfg.Bin([]byte{1, 2, 3})
 		m.TbsPubKeyAlg = refcfg.S("1.2.3.4")
+	}
+	if h("manipulated-inner-signature-oid") {
+		m.TbsSig = refcfg.S("1.2.3.4.5")
+	}
+	if h("manipulated-outer-signature-oid") {
+		m.OuterSigAlg = refcfg.S("1.2.3.4.6")
+	}
+	if h("manipulated-key-bits") {
+		m.TbsPubKey = refcfg.Bin([]byte{0xde, 0xad, 0xbe, 0xef})
 	}
 	if !m.Empty() {
 		ent.Manip = m
